@@ -370,6 +370,21 @@ def d131():
     return None if float(q.edges[0]) == 0.25 else f"edge 0.25 became {float(q.edges[0])!r}"
 
 
+def d132():
+    try:
+        m = df.Mesh(p1=0, p2=10e-9, n=10, subregions={"a": df.Region(p1=0, p2=0.9995e-9, tolerance_factor=1e-2)})
+    except ValueError:
+        return None               # refused at once: nothing that cannot be read back is ever stored
+    with tempfile.TemporaryDirectory() as d:
+        fn = os.path.join(d, "x.h5")
+        df.Field(m, nvdim=1, value=1.0).to_file(fn)
+        try:
+            df.Field.from_file(fn)
+        except Exception as e:
+            return f"a mesh the constructor accepted cannot be read back from its HDF5 file: {type(e).__name__}: {str(e)[:80]}"
+    return None
+
+
 ALL = {
     "D1": ("C13", d1), "D2": ("C13", d2), "D3": ("C12", d3), "D4": ("C12", d4),
     "D5": ("C08", d5), "D6": ("C08", d6), "D7": ("C08", d7), "D8": ("C03", d8),
@@ -377,7 +392,7 @@ ALL = {
     "D14": ("C09", d14), "D15": ("C09", d15), "D16": ("C11", d16), "D20": ("C19", d20), "D21": ("C13", d21), "D22": ("C08", d22), "D23": ("C03", d23), "D31": ("C10", d31), "D41": ("C02", d41), "D43": ("C02", d43), "D44": ("C02", d44),
     "D101": ("C01", d101), "D111": ("C08", d111), "D113": ("C13", d113), "D114": ("C12", d114),
     "D45": ("C02", d45), "D46": ("C02", d46),
-    "D123": ("C04", d123), "D124": ("C01", d124), "D58": ("C13", d58), "D125": ("C12", d125), "D130": ("C04", d130), "D131": ("C13", d131),
+    "D123": ("C04", d123), "D124": ("C01", d124), "D58": ("C13", d58), "D125": ("C12", d125), "D130": ("C04", d130), "D131": ("C13", d131), "D132": ("C10", d132),
 }
 
 
